@@ -449,12 +449,12 @@ func hashHelperShape(fn *ssa.Function) string {
 	var write, sum, reset *ssa.Call
 	allInstrs(fn, false, func(in ssa.Instruction) {
 		call, ok := in.(*ssa.Call)
-		if !ok || !call.Call.IsInvoke() || call.Call.Value != ssa.Value(h) {
+		if !ok || !call.Call.IsInvoke() || viewVal(fn, call.Call.Value) != ssa.Value(h) {
 			return
 		}
 		switch call.Call.Method.Name() {
 		case "Write":
-			if len(call.Call.Args) == 1 && call.Call.Args[0] == ssa.Value(b) {
+			if len(call.Call.Args) == 1 && viewVal(fn, call.Call.Args[0]) == ssa.Value(b) {
 				if write != nil {
 					write = nil
 				} else {
@@ -482,7 +482,7 @@ func hashHelperShape(fn *ssa.Function) string {
 		return "Write/Sum/Reset out of order"
 	}
 	for _, ret := range returnsOf(fn) {
-		for _, v := range possibleValues(ret.Results[0]) {
+		for _, v := range viewOrigins(fn, ret.Results[0]) {
 			if isNilConst(v) {
 				// the nil-hash arm (no integrity algorithm)
 				continue
